@@ -214,6 +214,9 @@ type nodeState struct {
 	idx  int
 	n    *hx.Node
 	cols []*nodeCol
+	// the update notifications of the node, by cid: a head is delivered under the ids its own notification carried
+	tap       *hx.EventTap
+	announced map[string]event.Update
 }
 
 type world struct {
@@ -283,7 +286,8 @@ func run(c Case) (*hx.Failure, *Info) {
 		if _, err := n.DB.AddSchema(n.Ctx, sdl); err != nil {
 			hx.Harnessf("schema rejected: %v\n%s", err, sdl)
 		}
-		ns := &nodeState{idx: i, n: n}
+		ns := &nodeState{idx: i, n: n, tap: hx.NewEventTap(n), announced: map[string]event.Update{}}
+		defer ns.tap.Close()
 		for range c.Cols {
 			ns.cols = append(ns.cols, &nodeCol{known: map[int]bool{0: true}, colDesc: map[int]string{}, schDesc: map[int]string{}, wroteUnder: map[int]bool{}})
 		}
@@ -777,14 +781,28 @@ func (w *world) syncDoc(ci, di int) *hx.Failure {
 			}
 		}
 	}
+	for _, ns := range w.nodes {
+		for _, u := range ns.tap.Take() {
+			ns.announced[u.Cid.String()] = u
+		}
+	}
 	for x := 0; x < 2; x++ {
 		y := 1 - x
 		for _, h := range hs[x] {
+			// the network layer routes a commit by the ids of the notification that announced it
+			docID, colID := dm.id, rootID
+			if u, ok := w.nodes[x].announced[h.String()]; ok {
+				docID, colID = u.DocID, u.CollectionID
+				w.info.flag("delivery-under-the-ids-of-the-senders-notification")
+				if w.nodes[x].cols[ci].active != 0 {
+					w.info.flag("delivery-of-a-commit-announced-under-a-later-version")
+				}
+			}
 			w.info.tracef("step %d: deliver %s head %s node %d (active v%d) -> node %d (active v%d)", w.step, dm.id, h, x, w.nodes[x].cols[ci].active, y, w.nodes[y].cols[ci].active)
 			if _, err := hx.CopyClosure(w.nodes[y].n.Ctx, w.nodes[x].n, w.nodes[y].n, h); err != nil {
 				hx.Harnessf("copy closure: %v", err)
 			}
-			err := w.nodes[y].n.DB.VerifMerge(w.nodes[y].n.Ctx, event.Merge{DocID: dm.id, Cid: h, CollectionID: rootID})
+			err := w.nodes[y].n.DB.VerifMerge(w.nodes[y].n.Ctx, event.Merge{DocID: docID, Cid: h, CollectionID: colID})
 			if err != nil {
 				cls := "receiver-knows-all-fields"
 				if xver[x] {
